@@ -197,7 +197,9 @@ WakeFutex(t) ==
 (* --------------------------- dispatch_group_leave --------------------------- *)
 \* one evaluation of the body of the do-while loop on the LOCAL old_state o (no shared access):
 \* returns the word to CAS in
-LeaveNew(o) == IF o.nv = 0 THEN [o EXCEPT !.hn = 0, !.hw = 0] ELSE [o EXCEPT !.hn = 0]
+LeaveNew(o) == IF Mut = "wake_noclear"      \* mutant: the list (and its bit) is treated as persistent
+                 THEN (IF o.nv = 0 THEN [o EXCEPT !.hw = 0] ELSE o)
+               ELSE IF o.nv = 0 THEN [o EXCEPT !.hn = 0, !.hw = 0] ELSE [o EXCEPT !.hn = 0]
 \* old_state = os_atomic_add_orig2o(dg, dg_state, INTERVAL, release); carry into gen when nv = VMOD-1.
 \* An unbalanced leave (old_value == 0) is a client crash: not a legal history.
 \* `tk` is the work being left: the caller's own (dispatch_group_leave) or dispatch_group_async work whose
@@ -438,6 +440,13 @@ NothingLeft == Quiet => /\ \A t \in Threads : Asleep(t) => st.gen = lv[t].g
 \* stricter reading, reported but NOT judged (see tools/props/C07.py): a notifier whose notify call had
 \* returned is fired for the first zero transition that follows, not for a later one
 NoMissedZero == Quiet => \A n \in regd : zeroAfter[n] => fired[n] >= 1
+\* progress as a safety condition (the state graph of a finite client is acyclic but for CAS retries, which
+\* need another thread's step): when every thread is idle or blocked, the only blocked threads are
+\* legitimate sleepers -- nobody spins for an enqueuer that does not exist
+Blocked(t) == \/ pc[t] = "wk_head" /\ nhead = 0
+              \/ pc[t] = "wk_next" /\ nnext[lv[t].dc] = 0
+              \/ Asleep(t)
+StuckFree == (\A t \in Threads : pc[t] = "idle" \/ Blocked(t)) => (\A t \in Threads : Blocked(t) => Asleep(t))
 \* reusable: at every quiescent zero the group is exactly a new group but for the generation
 Reusable == (Quiet /\ Count(st.nv) = 0) => (st.nv = 0 /\ st.hn = 0 /\ st.hw = 0 /\ ntail = 0 /\ nhead = 0)
 
